@@ -87,7 +87,12 @@ def c12(tier):
             s[rnd.randrange(len(s))] = rnd.choice([0x80, 0xff, 0xc3, 0xe2, 0x00, 0xf0, 0xbf, 0x22, 0x27, 0x2f, 0x2a])
         raws.append(list(s))
     inp = {"lex": [l["in"] for l in lex], "texts": texts, "raw": raws}
-    recs = run_harness(binary, "opl", inp, timeout=1800)
+    recs, crashers = run_surviving(binary, "opl", inp, timeout=1800)
+    for c in crashers:
+        what = {"lex": lambda i: {"input_chars": lex[i]["in"]}, "text": lambda i: {"text": texts[i][:600], "length": len(texts[i])},
+                "raw": lambda i: {"bytes": raws[i][:200]}}[c["kind"]](c["i"])
+        ck.violation("the process died while lexing / parsing an input (no diagnosis was returned)", dict(what, crash=c["log"]))
+    dead = {(c["kind"], c["i"]) for c in crashers}
     bylex = {x["lex"]: x for x in recs if "lex" in x}
     slow = 0
 
@@ -108,6 +113,8 @@ def c12(tier):
 
     for i, l in enumerate(lex):
         ob = bylex.get(i)
+        if ob is None and ("lex", i) in dead:
+            continue
         if ob is None:
             raise Inconclusive("lexer input %d not replayed" % i)
         ck.evaluations += 1
@@ -164,15 +171,22 @@ def c10(tier):
     if not progs:
         raise Inconclusive("OplGrammar.tla generated nothing")
     eng_every = 40 if tier == "quick" else 25
-    inp = {"progs": [{"src": p["src"], "engine": i % eng_every == 0} for i, p in enumerate(progs)], "lex": [], "texts": [], "raw": []}
-    recs = {x["prog"]: x for x in run_harness(binary, "opl", inp, timeout=2400) if "prog" in x}
+    inp = {"progs": [{"src": p["src"], "engine": i % eng_every == 0, "leafc": p["leafc"]} for i, p in enumerate(progs)], "lex": [], "texts": [], "raw": []}
+    allrecs, crashers = run_surviving(binary, "opl", inp, timeout=2400)
+    recs = {x["prog"]: x for x in allrecs if "prog" in x}
+    for c in crashers:
+        ck.violation("the process died while parsing / evaluating a program of the documented grammar",
+                     {"source": progs[c["i"]]["src"], "body": progs[c["i"]]["body"], "crash": c["log"]})
+    dead = {c["i"] for c in crashers}
     known = {f["id"]: f for f in known_findings("C10")}
     for i, p in enumerate(progs):
         ob = recs.get(i)
+        if ob is None and i in dead:
+            continue
         if ob is None:
             raise Inconclusive("program %d not replayed" % i)
         ck.evaluations += 1
-        cid = {"body": p["body"], "source": p["src"]}
+        cid = {"body": p["body"], "source": p["src"], "class_order": p["order"], "leaf_c_spelled_as": p["leafc"]}
         if ob.get("panic"):
             ck.violation("parser or evaluation panicked: " + ob["panic"][:200], cid)
             continue
@@ -183,7 +197,7 @@ def c10(tier):
         got = sorted(map(tuple, ob["tt"]))
         if got != want:
             ck.violation("the parsed permission does not mean what the TypeScript expression means", dict(cid, typescript_true_for=want, keto_true_for=got))
-        if sorted(ob.get("relations") or []) != ["a", "b", "c", "p"]:
+        if sorted(ob.get("relations") or []) != sorted(p["rels"]):
             ck.violation("the parsed namespace does not have the declared relations", dict(cid, relations=ob.get("relations")))
         if "engine_tt" in ob or "engine_err" in ob:
             if ob.get("engine_err"):
@@ -197,7 +211,8 @@ def c10(tier):
     ck.extra["programs"] = len(progs)
     ck.exhaustive = nsample == 0
     ck.rule = ("expressions of nesting depth %d over three leaves with !, &&, || (all %s) printed with TypeScript's minimal parentheses in random spelling variants "
-               "(property access, array type, annotations, separators, quoting, comments, redundant parentheses, trailing commas, !!); parsed by the real parser; "
+               "(property access, array type, annotations, separators, quoting, comments, redundant parentheses, trailing commas, !!, the leaf c spelled directly / as a traversal onto a relation / "
+               "as a traversal onto a permission / as a permission call, four orders of the three classes); parsed by the real parser; "
                "truth tables compared; every %dth program also through a real server; non-trivial: at least one binary operator" % (depth, "of them" if nsample == 0 else "a seeded sample", eng_every))
     ck.assumptions = ["the spellings `related:` and `traverse` of the examples and snapshots are used where the EBNF text says `related =` and `transitive`"]
     ck.finish()
@@ -221,15 +236,30 @@ def c11(tier):
         import random
         rnd = random.Random(seed())
         must = [p for p in progs if p["accepted"] and not p["runtime_ok"]]     # the recorded finding's programs are always replayed
-        keep = [p for p in progs if p["prog"]["mut"] != "none" and p not in must]
-        rest = [p for p in progs if p not in keep and p not in must]
-        progs = must + rnd.sample(keep, min(len(keep), 250)) + rnd.sample(rest, min(len(rest), 140))
+        # every (mutation, class order) and every (body, class order) of the unmutated programs is represented
+        strata = {}
+        for p in progs:
+            if p in must:
+                continue
+            pr = p["prog"]
+            strata.setdefault((pr["mut"], pr["order"], pr["body"] if pr["mut"] == "none" else ""), []).append(p)
+        progs = list(must)
+        for k in sorted(strata):
+            progs += rnd.sample(strata[k], min(len(strata[k]), 8))
     inp = {"typeprogs": [{"src": p["src"], "tuples": p["tuples"]} for p in progs], "progs": [], "lex": [], "texts": [], "raw": []}
-    recs = {x["typeprog"]: x for x in run_harness(binary, "opl", inp, timeout=2400) if "typeprog" in x}
+    allrecs, crashers = run_surviving(binary, "opl", inp, timeout=2400)
+    recs = {x["typeprog"]: x for x in allrecs if "typeprog" in x}
+    for c in crashers:
+        # neither accepted nor rejected: the type checker (or a check on the loaded configuration) took the process down
+        ck.violation("the process died while type-checking a document or checking on the loaded configuration",
+                     {"program": progs[c["i"]]["prog"], "source": progs[c["i"]]["src"], "crash": c["log"]})
+    dead = {c["i"] for c in crashers}
     known = {f["id"]: f for f in known_findings("C11")}
     drift = 0
     for i, p in enumerate(progs):
         ob = recs.get(i)
+        if ob is None and i in dead:
+            continue
         if ob is None:
             raise Inconclusive("program %d not replayed" % i)
         ck.evaluations += 1
